@@ -26,3 +26,7 @@ func VerifTypeLinks() ([][2]uintptr, bool)                { return runtime.Verif
 func VerifTypeAddr() (base, max, rng, shift uintptr)      { return encoder.VerifTypeAddr() }
 func VerifEncCacheIndex(typeptr uintptr) (int, bool, int) { return encoder.VerifCacheIndex(typeptr) }
 func VerifDecCacheIndex(typeptr uintptr) (int, bool, int) { return decoder.VerifCacheIndex(typeptr) }
+
+func VerifStreamTrace(pieces [][]byte, fail bool, ops []byte) []string {
+	return decoder.VerifStreamTrace(pieces, fail, ops)
+}
